@@ -41,6 +41,7 @@ def run_kernel(kernel: str, repo: str, workdir: str, rlimit=None, timeout=900, c
             f.write(CANARY)
     res['rewrite_log'] = info['log']
     res['functions'] = info['functions']
+    res['aux_fns'] = info.get('aux_fns', [])
     res['tags'] = info['tags']
     res['serves'] = info['serves']
     res['regions_checked'] = info['regions_checked']
